@@ -12,6 +12,7 @@ is more robust w.r.t. argument numbering than using repr.
 # Modified by Anders Logg, 2009-2010.
 # Modified by Johan Hake, 2010.
 
+import re
 from functools import cmp_to_key
 
 from ufl.argument import Argument
@@ -92,12 +93,30 @@ def _cmp_argument(a, b):
         return 0
 
 
+_number = re.compile(r"(\d+)")
+
+
+def _natural_key(s):
+    """Split a string into text and numbers so that embedded numbers compare by value."""
+    return [int(t) if i % 2 else t for i, t in enumerate(_number.split(s))]
+
+
 def _cmp_terminal_by_repr(a, b):
     """Cmp terminal by repr."""
     # The cost of repr on a terminal is fairly small, and bounded
     x = repr(a)
     y = repr(b)
-    return -1 if x < y else (0 if x == y else 1)
+    if x == y:
+        return 0
+    # The repr of constants, geometric quantities and zeros with free
+    # indices embeds global counters (count, mesh id, index counts).
+    # Compare embedded numbers by value, not as strings ("10" < "9"),
+    # so that the order does not change when a counter gains a digit.
+    kx = _natural_key(x)
+    ky = _natural_key(y)
+    if kx != ky:
+        return -1 if kx < ky else 1
+    return -1 if x < y else 1
 
 
 # Hack up a MultiFunction-like type dispatch for terminal comparisons
